@@ -13,21 +13,37 @@ function of the key (the code's `KeySpace.RangeIndex`, C05).
 namespace Rxn.C04
 open Rxn Runner
 
+/-- **the read order**: `s.logical` is the sequence of things the read loop has put on `outputStream`. Its records,
+followed by the not yet enqueued rest of the current read, are exactly the records the source reader handed out, in
+order (nothing skipped, repeated or swapped between `ReadEvents` and `outputStream`) -/
+theorem read_order {ρ : Type} (c : Cfg ρ) (hunbuf : c.handoffBuffered = false) (maxSize : Nat) (hasDelay : Bool)
+    (as : List (Act ρ)) (s : St ρ) (hrun : exec c (init maxSize hasDelay) as = some s) :
+    recordsOf s.logical ++ s.readBuf = fetchedOf as := by
+  obtain ⟨_, _, h⟩ := exec_inv c hunbuf as _ s (init_inv c maxSize hasDelay) (init_cut maxSize hasDelay) hrun
+  simpa [init] using h
+
+/-- **barriers cut the read order where the reader was checkpointed**: the cursor `Checkpoint()` returned for a
+barrier is exactly the number of records placed on `outputStream` before that barrier — no record the checkpoint
+accounts for comes after the barrier, none it does not account for comes before it -/
+theorem barrier_cut {ρ : Type} (c : Cfg ρ) (hunbuf : c.handoffBuffered = false) (maxSize : Nat) (hasDelay : Bool)
+    (as : List (Act ρ)) (s : St ρ) (hrun : exec c (init maxSize hasDelay) as = some s) :
+    s.ckpts = cutsOf s.logical 0 ∧ s.cursor = (recordsOf s.logical).length + s.readBuf.length := by
+  obtain ⟨_, h, _⟩ := exec_inv c hunbuf as _ s (init_inv c maxSize hasDelay) (init_cut maxSize hasDelay) hrun
+  exact ⟨h.cuts.symm, h.cur.symm⟩
+
 /-- **per-operator stream**: at every moment of every schedule, what operator `q` has been handed, followed by what
 the runner still holds for it (in the sender's hand, in `q`'s batcher, in the current placeholder's work list, and in
 the not yet processed part of `outputStream`), is exactly the read order restricted to `q` -/
 theorem per_operator_stream {ρ : Type} (c : Cfg ρ) (hunbuf : c.handoffBuffered = false) (maxSize : Nat) (hasDelay : Bool) (as : List (Act ρ)) (s : St ρ)
     (hrun : exec c (init maxSize hasDelay) as = some s) (q : Nat) (hq : q < c.nOps) :
-    delivered s q ++ pendingFor s q ++ project c q s.stream = project c q (logicalOf as) := by
-  obtain ⟨h, hl⟩ := exec_inv c hunbuf as _ s (init_inv c maxSize hasDelay) hrun
-  have := h.main q hq
-  rw [hl] at this
-  simpa [init] using this
+    delivered s q ++ pendingFor s q ++ project c q s.stream = project c q s.logical := by
+  obtain ⟨h, _, _⟩ := exec_inv c hunbuf as _ s (init_inv c maxSize hasDelay) (init_cut maxSize hasDelay) hrun
+  exact h.main q hq
 
 /-- so the delivered stream is always a prefix of the specification: nothing is duplicated, reordered or invented -/
 theorem delivery_prefix {ρ : Type} (c : Cfg ρ) (hunbuf : c.handoffBuffered = false) (maxSize : Nat) (hasDelay : Bool) (as : List (Act ρ)) (s : St ρ)
     (hrun : exec c (init maxSize hasDelay) as = some s) (q : Nat) (hq : q < c.nOps) :
-    ∃ rest, delivered s q ++ rest = project c q (logicalOf as) :=
+    ∃ rest, delivered s q ++ rest = project c q s.logical :=
   ⟨pendingFor s q ++ project c q s.stream, by
     rw [← List.append_assoc]; exact per_operator_stream c hunbuf maxSize hasDelay as s hrun q hq⟩
 
@@ -35,7 +51,7 @@ theorem delivery_prefix {ρ : Type} (c : Cfg ρ) (hunbuf : c.handoffBuffered = f
 its whole stream: nothing is lost -/
 theorem delivery_complete {ρ : Type} (c : Cfg ρ) (hunbuf : c.handoffBuffered = false) (maxSize : Nat) (hasDelay : Bool) (as : List (Act ρ)) (s : St ρ)
     (hrun : exec c (init maxSize hasDelay) as = some s) (hquiet : quiescent s) (q : Nat) (hq : q < c.nOps) :
-    delivered s q = project c q (logicalOf as) := by
+    delivered s q = project c q s.logical := by
   have h := per_operator_stream c hunbuf maxSize hasDelay as s hrun q hq
   obtain ⟨h1, h2, h3, h4⟩ := hquiet
   have hp : pendingFor s q = [] := by
@@ -49,7 +65,7 @@ often as the user's key function produced it, and to no other operator -/
 theorem exactly_once {ρ : Type} (c : Cfg ρ) (hunbuf : c.handoffBuffered = false) (maxSize : Nat) (hasDelay : Bool) (as : List (Act ρ)) (s : St ρ)
     (hrun : exec c (init maxSize hasDelay) as = some s) (hquiet : quiescent s) (q : Nat) (hq : q < c.nOps) (e : KEv) :
     (delivered s q).count (.keyed e) =
-      if c.route e.key = q then (expand c (logicalOf as)).count (.keyed e) else 0 := by
+      if c.route e.key = q then (expand c s.logical).count (.keyed e) else 0 := by
   rw [delivery_complete c hunbuf maxSize hasDelay as s hrun hquiet q hq, project]
   by_cases h : c.route e.key = q
   · rw [if_pos h, List.count_filter]; simp [keep, h]
@@ -63,9 +79,9 @@ theorem exactly_once {ρ : Type} (c : Cfg ρ) (hunbuf : c.handoffBuffered = fals
 (same operator) arrive in the order the split produced them, and barriers/watermarks keep their place among them -/
 theorem order_preserved {ρ : Type} (c : Cfg ρ) (hunbuf : c.handoffBuffered = false) (maxSize : Nat) (hasDelay : Bool) (as : List (Act ρ)) (s : St ρ)
     (hrun : exec c (init maxSize hasDelay) as = some s) (q : Nat) (hq : q < c.nOps) :
-    (delivered s q).Sublist (expand c (logicalOf as)) := by
+    (delivered s q).Sublist (expand c s.logical) := by
   obtain ⟨rest, h⟩ := delivery_prefix c hunbuf maxSize hasDelay as s hrun q hq
-  have h1 : (delivered s q).Sublist (project c q (logicalOf as)) := by
+  have h1 : (delivered s q).Sublist (project c q s.logical) := by
     rw [← h]; exact List.sublist_append_left _ _
   exact h1.trans List.filter_sublist
 
@@ -73,7 +89,7 @@ theorem order_preserved {ρ : Type} (c : Cfg ρ) (hunbuf : c.handoffBuffered = f
 operator `q` has been handed `b`, then before it `q` was handed exactly the part of `A` meant for it, in order -/
 theorem broadcast_never_overtakes {ρ : Type} (c : Cfg ρ) (hunbuf : c.handoffBuffered = false) (maxSize : Nat) (hasDelay : Bool) (as : List (Act ρ)) (s : St ρ)
     (hrun : exec c (init maxSize hasDelay) as = some s) (q : Nat) (hq : q < c.nOps)
-    (A B : List Ev) (b : Ev) (hb : keep c q b = true) (hsplit : expand c (logicalOf as) = A ++ b :: B)
+    (A B : List Ev) (b : Ev) (hb : keep c q b = true) (hsplit : expand c s.logical = A ++ b :: B)
     (hfirst : b ∉ A) (hgot : b ∈ delivered s q) :
     ∃ rest, delivered s q = A.filter (keep c q) ++ b :: rest := by
   obtain ⟨rest, h⟩ := delivery_prefix c hunbuf maxSize hasDelay as s hrun q hq
@@ -100,7 +116,7 @@ def demoCfg : Cfg (Nat × Nat) :=
   { nOps := 2, route := fun k => k.length % 2, keyOf := fun r => [{ key := List.replicate r.2 0, src := r.1, idx := 0 }] }
 
 def demoSchedule : List (Act (Nat × Nat)) :=
-  [.readRec (1, 0), .readRec (2, 1), .barrier 7, .readRec (3, 0), .rfEmit, .sTake, .sAdd, .sIsFull, .fire 0, .oTok 0,
+  [.fetch [(1, 0), (2, 1)], .enq, .enq, .barrier 7, .fetch [(3, 0)], .enq, .rfEmit, .sTake, .sAdd, .sIsFull, .fire 0, .oTok 0,
    .rfEmit, .sTake, .sAdd, .sIsFull, .oTFlush 0, .oDone 0, .sTake, .sAdd, .sIsFull, .sAdd, .sIsFull, .sFlush, .sSend,
    .oDone 1, .rfEmit, .sTake, .sAdd, .sIsFull, .sFlush, .stale 0, .oTok 0, .oTFlush 0, .oDone 0, .sSend, .oDone 0]
 
@@ -115,7 +131,7 @@ def bufCfg : Cfg Nat :=
   { nOps := 1, route := fun _ => 0, keyOf := fun r => [{ key := [], src := r, idx := 0 }], handoffBuffered := true }
 
 def bufSchedule : List (Act Nat) :=
-  [.readRec 1, .readRec 2, .readRec 3, .readRec 4, .readRec 5, .rfEmit, .rfEmit, .rfEmit, .rfEmit, .rfEmit,
+  [.fetch [1, 2, 3], .enq, .enq, .enq, .fetch [4, 5], .enq, .enq, .rfEmit, .rfEmit, .rfEmit, .rfEmit, .rfEmit,
    .sTake, .sAdd, .sIsFull, .sTake, .sAdd, .sIsFull, .sFlush, .sSend, .oRecv 0,          -- batch {1,2}: operator busy
    .sTake, .sAdd, .sIsFull, .sTake, .sAdd, .sIsFull, .sFlush, .sSend,                    -- batch {3,4} waits in the channel
    .sTake, .sAdd, .sIsFull, .fire 0, .oDone 0, .oTok 0, .oTFlush 0, .oDone 0, .oRecv 0]   -- {5} times out and overtakes
@@ -127,5 +143,14 @@ theorem buffered_handoff_reorders :
 /-- the same schedule is not a schedule of the code: the router cannot go on while its batch has not been taken -/
 theorem unbuffered_handoff_blocks :
     (exec { bufCfg with handoffBuffered := false } (init 2 true) bufSchedule).isSome = false := by decide
+
+/-! negative witness for `barrier_cut`: it relies on checkpoint requests being served only *between* reads. A loop
+that also serves them between two records of one read (the `barrier` action enabled while `readBuf ≠ []`) snapshots a
+cursor that is ahead of the barrier's place. In the model of the code this schedule is simply not enabled: -/
+theorem barrier_mid_read_not_enabled :
+    (exec demoCfg (init 2 true) [.fetch [(1, 0), (2, 0)], .enq, .barrier 1]).isSome = false := by decide
+
+example : (exec demoCfg (init 2 true) [.fetch [(1, 0), (2, 0)], .enq, .enq, .barrier 1, .fetch [(3, 0)], .enq]).map
+    (fun s => (s.ckpts, cutsOf s.logical 0, s.cursor)) = some ([(1, 2)], [(1, 2)], 3) := by decide
 
 end Rxn.C04
